@@ -23,6 +23,14 @@ def main():
         mp0 = os.path.join(d, "meta.json")
         base = (json.load(open(mp0)).get("base_commit") if os.path.exists(mp0) else None)
         reset(base)
+        # some demos hard-code the mutator's worktree path /tmp/mut/<ID> (or take it from an env var)
+        prop = os.path.basename(d).split("-")[0]
+        os.makedirs("/tmp/mut", exist_ok=True)
+        link = f"/tmp/mut/{prop}"
+        if os.path.islink(link) or not os.path.exists(link):
+            sh(f"ln -sfn {WT} {link}")
+        for v in ("GRASS_ROOT", f"{prop}_ROOT"):
+            os.environ[v] = WT
         # demos locate the tree either by cwd or relative to their own path (<tree>/out/m/demo.sh)
         sh(f"rm -rf {WT}/out && mkdir -p {WT}/out && cp -r {d} {WT}/out/m")
         demo = os.path.join(WT, "out", "m", "demo.sh")
@@ -31,13 +39,15 @@ def main():
         if a.returncode:
             res = {"applies": False, "why": a.stdout[-500:]}
         else:
-            t = sh("cargo test --offline --workspace --no-fail-fast 2>&1 | grep -E '^test result' | awk '{p+=$4; f+=$6} END {print p, f}'")
+            t = sh("cargo test --offline --workspace --no-fail-fast 2>&1 | tee /tmp/confirm_suite_$$.log | grep -E '^test result' | awk '{p+=$4; f+=$6} END {print p, f}'; grep -E '^test .* FAILED|^---- ' /tmp/confirm_suite_$$.log | head -5; rm -f /tmp/confirm_suite_$$.log")
             r1 = sh(f"bash {demo}")
             res = {"applies": True, "demo_clean_rc": r0.returncode, "suite_passed_failed": t.stdout.strip(),
                    "demo_patched_rc": r1.returncode, "demo_patched_output": r1.stdout[-600:],
-                   "ok": r0.returncode == 0 and r1.returncode not in (0, 99) and t.stdout.strip().endswith(" 0") and not t.stdout.strip().startswith("0")}
+                   "ok": r0.returncode == 0 and r1.returncode not in (0, 99) and t.stdout.strip().split("\n")[0].endswith(" 0") and not t.stdout.strip().startswith("0")}
         reset(base)
         sh(f"rm -rf {WT}/out")
+        if os.path.islink(link):
+            os.unlink(link)
         mp = os.path.join(d, "meta.json")
         m = json.load(open(mp)) if os.path.exists(mp) else {}
         m["confirmed"] = res
